@@ -40,6 +40,7 @@ def floors(m, tier):
             "M-query evaluations": (m.monitor.get("M-query", 0), BUDGET[tier] // 4),
             "'?' separated queries": (c.get("question_mark_separator", 0), 100),
             "queries with a leading / trailing separator": (c.get("leading_or_trailing_separator", 0), 100),
+            "queries with more than 10 pairs": (c.get("long_queries", 0), 100),
             "queries chained on a refused query": (c.get("chained_on_refused", 0), 100)}
 
 
@@ -236,6 +237,10 @@ def one_case(rec, model, vocab, Sid, rng, t, s, pairs_q, pairs_kw, mode):
         q = sepq.join("%s=%s" % (k, v) for k, v in pairs_q)
         if sepq == "?":
             rec.count("question_mark_separator")
+        if pairs_q and len(s + q) % 11 == 0:
+            # a long query: more pairs than any template has keys (unknown keys: all-or-nothing, so refused - never an error)
+            q = q + "&" + "&".join("zk%d=v%d" % (i, i) for i in range(8 + len(q) % 5))
+            rec.count("long_queries")
         if pairs_q and len(s + q) % 9 == 0:
             # "optionally leading or trailing ? or & are ignored" (documented)
             q = q + "&?"[len(q) % 2] if len(q) % 3 else "&?"[len(q) % 2] + q
@@ -323,12 +328,14 @@ def worker(args):
         suite_shard.run_repo_tests(rec)
         fin()
         return rec.result()
+    # open-level values of the Sids being updated: ordinary names, plus braces (str.format syntax), non-NFC text, an EMPTY value
+    C04_POOL = gen.SAFE_NAME_POOL + ["{x}", "{}", "a}b", "{0}", "", "cafe\u0301"]
     for it in range(args["n"]):
         t0 = usable[it % len(usable)]
         if rng.random() < 0.5:
-            s = vocab.valid_string(t0, rng, pool=gen.SAFE_NAME_POOL)
+            s = vocab.valid_string(t0, rng, pool=C04_POOL)
         else:
-            s, _ = vocab.search_string(t0, rng, pool=gen.SAFE_NAME_POOL, p_sym=rng.choice([0.2, 0.6, 1.0]))
+            s, _ = vocab.search_string(t0, rng, pool=C04_POOL, p_sym=rng.choice([0.2, 0.6, 1.0]))
         x = Sid(s)
         if not x:
             continue
